@@ -38,6 +38,7 @@ def Expr.leftEdgeHas (p : Expr → Bool) : Expr → Bool
   | .force e => p (.force e) || e.leftEdgeHas p
   | .member o e n => p (.member o e n) || e.leftEdgeHas p
   | .index e i => p (.index e i) || e.leftEdgeHas p
+  | .invoke f as => p (.invoke f as) || f.leftEdgeHas p
   | e => p e
 
 /-- last-operand chain (the driver's `rightEdgeHas`): what the printed form ends with -/
@@ -54,6 +55,7 @@ def Expr.rightEdgeHas (p : Expr → Bool) : Expr → Bool
 def chainFree (op : BinOp) (l r : Expr) : Bool :=
   !(op == .lt && r.leftEdgeHas (Expr.isBin .gt)) && !(op == .gt && l.rightEdgeHas (Expr.isBin .lt))
 
+mutual
 /-- **well-formedness**: the domain of `expr_roundtrip`.
     * canonical (what the parser produces): identifiers are not keywords / `true` / `false` / `nil`;
       a negative integer literal is not zero; `-` is not applied to a non-negative literal (the parser
@@ -76,5 +78,14 @@ def Expr.wf : Expr → Bool
   | .cond c t e => c.wf && t.wf && e.wf
   | .member _ e _ => e.wf
   | .index e i => e.wf && i.wf
+  | .invoke f args => f.wf && args.wfArgs
+  | .argsNil => false
+  | .argsCons .. => false
+/-- a well-formed argument list: well-formed arguments, labels are identifiers -/
+def Expr.wfArgs : Expr → Bool
+  | .argsNil => true
+  | .argsCons label a rest => (label == "" || plainIdent label) && a.wf && rest.wfArgs
+  | _ => false
+end
 
 end Verif.Model.Front.Syn
